@@ -124,6 +124,11 @@ def numpy_bool_representer(dumper, data):
     return dumper.represent_bool(bool(data))
 yaml.add_representer(np.bool_, numpy_bool_representer)
 
+# (e.g. the channel labels of an image used as dictionary keys)
+def numpy_str_representer(dumper, data):
+    return dumper.represent_str(str(data))
+yaml.add_representer(np.str_, numpy_str_representer)
+
 
 # numpy ufuncs can no longer be pickled as of numpy 1.20
 # we still want to yamlize them, especially for TransforedPrior
